@@ -16,9 +16,9 @@ theorem parseAll_fixed (fs : List FileInfo) :
   | cons f fs ih =>
     cases h : f.parse <;> simp [parseAll, ih, h, List.filter_cons]
 
-/-- As-is: no exception escapes `parse_all` exactly when no file raises. -/
-theorem parseAll_asis (fs : List FileInfo) (h : ∀ f ∈ fs, f.parse ≠ .raise) :
-    parseAll .asis fs = some ((fs.filter (fun f => f.parse ≠ .ok)).length) := by
+/-- Old code: no exception escapes `parse_all` exactly when no file raises. -/
+theorem parseAll_old (fs : List FileInfo) (h : ∀ f ∈ fs, f.parse ≠ .raise) :
+    parseAll .old fs = some ((fs.filter (fun f => f.parse ≠ .ok)).length) := by
   induction fs with
   | nil => simp [parseAll]
   | cons f fs ih =>
@@ -26,8 +26,8 @@ theorem parseAll_asis (fs : List FileInfo) (h : ∀ f ∈ fs, f.parse ≠ .raise
     have ih' := ih (fun g hg => h g (by simp [hg]))
     cases hp : f.parse <;> simp_all [parseAll, List.filter_cons]
 
-theorem parseAll_asis_raise (fs : List FileInfo) (h : ∃ f ∈ fs, f.parse = .raise) :
-    parseAll .asis fs = none := by
+theorem parseAll_old_raise (fs : List FileInfo) (h : ∃ f ∈ fs, f.parse = .raise) :
+    parseAll .old fs = none := by
   induction fs with
   | nil => simp at h
   | cons f fs ih =>
@@ -57,11 +57,11 @@ theorem sympyLoop_fixed (ms : List ModelReq) (e : Nat) (w : List String) :
   | cons m ms ih =>
     cases h : m.sympy <;> simp [sympyLoop, ih, h, List.filter_cons] <;> omega
 
-/-- As-is: when no requested model makes `translate` raise, the loop returns the *initial*
+/-- Old code: when no requested model makes `translate` raise, the loop returns the *initial*
     count (failures reported by `translate`'s `False` are dropped). -/
-theorem sympyLoop_asis (ms : List ModelReq) (e : Nat) (w : List String)
+theorem sympyLoop_old (ms : List ModelReq) (e : Nat) (w : List String)
     (h : ∀ m ∈ ms, m.sympy ≠ .raise) :
-    sympyLoop .asis ms e w = .ret e (w ++ (ms.filter (fun m => m.sympy == .ok)).map (·.name)) := by
+    sympyLoop .old ms e w = .ret e (w ++ (ms.filter (fun m => m.sympy == .ok)).map (·.name)) := by
   induction ms generalizing e w with
   | nil => simp [sympyLoop]
   | cons m ms ih =>
@@ -69,8 +69,8 @@ theorem sympyLoop_asis (ms : List ModelReq) (e : Nat) (w : List String)
     have ih' := fun e w => ih e w (fun g hg => h g (by simp [hg]))
     cases hs : m.sympy <;> simp_all [sympyLoop, List.filter_cons]
 
-theorem sympyLoop_asis_raise (ms : List ModelReq) (e : Nat) (w : List String)
-    (h : ∃ m ∈ ms, m.sympy = .raise) : sympyLoop .asis ms e w = .raised := by
+theorem sympyLoop_old_raise (ms : List ModelReq) (e : Nat) (w : List String)
+    (h : ∃ m ∈ ms, m.sympy = .raise) : sympyLoop .old ms e w = .raised := by
   induction ms generalizing e w with
   | nil => simp at h
   | cons m ms ih =>
@@ -135,32 +135,32 @@ theorem casadiLoop_fixed (files : List FileInfo) (ms : List ModelReq) (e : Nat) 
     rw [hm]
     split <;> simp <;> omega
 
-/-- As-is: only ambiguity and failures of `transfer_model` are counted. -/
-def asisCasadiCounts (m : ModelReq) : List FileInfo → Bool
+/-- Old code: only ambiguity and failures of `transfer_model` are counted. -/
+def oldCasadiCounts (m : ModelReq) : List FileInfo → Bool
   | [] => false
   | [f] => !casadiOk m f.dir
   | _ => true
 
-theorem casadiStep_asis (m : ModelReq) (l : List FileInfo) (e : Nat) :
-    casadiStep .asis m (verdict l) e = e + (if asisCasadiCounts m l then 1 else 0) := by
+theorem casadiStep_old (m : ModelReq) (l : List FileInfo) (e : Nat) :
+    casadiStep .old m (verdict l) e = e + (if oldCasadiCounts m l then 1 else 0) := by
   rcases l with _ | ⟨f, _ | ⟨g, r⟩⟩
-  · simp [casadiStep, verdict, asisCasadiCounts]
-  · cases hc : casadiOk m f.dir <;> simp [casadiStep, verdict, asisCasadiCounts, hc]
-  · simp [casadiStep, verdict, asisCasadiCounts]
+  · simp [casadiStep, verdict, oldCasadiCounts]
+  · cases hc : casadiOk m f.dir <;> simp [casadiStep, verdict, oldCasadiCounts, hc]
+  · simp [casadiStep, verdict, oldCasadiCounts]
 
-theorem casadiLoop_asis (files : List FileInfo) (ms : List ModelReq) (e : Nat) :
-    casadiLoop .asis files ms e =
-      e + (ms.filter (fun m => asisCasadiCounts m (files.filter (fun f => f.stem = m.name)))).length := by
+theorem casadiLoop_old (files : List FileInfo) (ms : List ModelReq) (e : Nat) :
+    casadiLoop .old files ms e =
+      e + (ms.filter (fun m => oldCasadiCounts m (files.filter (fun f => f.stem = m.name)))).length := by
   induction ms generalizing e with
   | nil => simp [casadiLoop]
   | cons m ms ih =>
-    simp only [casadiLoop, inferDir_none, casadiStep_asis, ih, List.filter_cons]
+    simp only [casadiLoop, inferDir_none, casadiStep_old, ih, List.filter_cons]
     split <;> simp <;> omega
 
-/-- With at least one listed file per requested model the as-is count is the right one. -/
-theorem asisCasadiCounts_eq (m : ModelReq) (l : List FileInfo) (h : l ≠ []) :
-    asisCasadiCounts m l = casadiFails m l := by
-  rcases l with _ | ⟨f, _ | ⟨g, r⟩⟩ <;> simp_all [asisCasadiCounts, casadiFails]
+/-- With at least one listed file per requested model the old count is the right one. -/
+theorem oldCasadiCounts_eq (m : ModelReq) (l : List FileInfo) (h : l ≠ []) :
+    oldCasadiCounts m l = casadiFails m l := by
+  rcases l with _ | ⟨f, _ | ⟨g, r⟩⟩ <;> simp_all [oldCasadiCounts, casadiFails]
 
 /-- The same invocation with another list of requested models. -/
 def Inv.withModels (inv : Inv) (ms : List ModelReq) : Inv := { inv with models := ms }
